@@ -1513,6 +1513,39 @@ class ReceivePackHandler(PackHandler):
 
         atomic = self.has_capability(CAPABILITY_ATOMIC)
 
+        def current_value(ref: Ref) -> ObjectID:
+            try:
+                return self.repo.refs[ref]
+            except KeyError:
+                return zero_sha
+
+        def check_command(oldsha: ObjectID, sha: ObjectID, ref: Ref) -> bytes | None:
+            """Return an error message if the command cannot be applied."""
+            if sha == zero_sha:
+                if CAPABILITY_DELETE_REFS not in self.capabilities():
+                    raise GitProtocolError(
+                        "Attempted to delete refs without delete-refs capability."
+                    )
+            elif sha not in self.repo.object_store:
+                return b"missing necessary objects"
+            return None
+
+        def apply_command(oldsha: ObjectID, sha: ObjectID, ref: Ref) -> bytes:
+            """Apply a single command; return its status."""
+            if sha == zero_sha:
+                try:
+                    if not self.repo.refs.remove_if_equals(ref, oldsha):
+                        return b"failed to delete: ref is at a different value"
+                except all_exceptions:
+                    return b"failed to delete"
+            else:
+                try:
+                    if not self.repo.refs.set_if_equals(ref, oldsha, sha):
+                        return b"failed to update ref: ref is at a different value"
+                except all_exceptions:
+                    return b"failed to write"
+            return b"ok"
+
         if atomic:
             # Atomic push: validate all refs first, then apply all or none
             ref_results: list[tuple[Ref, bytes]] = []
@@ -1527,12 +1560,12 @@ class ReceivePackHandler(PackHandler):
                     has_failure = True
                 else:
                     try:
-                        if sha == zero_sha:
-                            if CAPABILITY_DELETE_REFS not in self.capabilities():
-                                raise GitProtocolError(
-                                    "Attempted to delete refs without "
-                                    "delete-refs capability."
-                                )
+                        error = check_command(oldsha, sha, ref)
+                        if error is None and current_value(ref) != oldsha:
+                            error = b"ref is at a different value"
+                        if error is not None:
+                            ref_status = error
+                            has_failure = True
                     except KeyError:
                         ref_status = b"bad ref"
                         has_failure = True
@@ -1550,49 +1583,24 @@ class ReceivePackHandler(PackHandler):
 
             # All validations passed; apply all ref updates
             for oldsha, sha, ref in refs:
-                ref_status = b"ok"
                 try:
-                    if sha == zero_sha:
-                        try:
-                            self.repo.refs.remove_if_equals(ref, oldsha)
-                        except all_exceptions:
-                            ref_status = b"failed to delete"
-                    else:
-                        try:
-                            self.repo.refs.set_if_equals(ref, oldsha, sha)
-                        except all_exceptions:
-                            ref_status = b"failed to write"
+                    ref_status = apply_command(oldsha, sha, ref)
                 except KeyError:
                     ref_status = b"bad ref"
                 yield (ref, ref_status)
         else:
             for oldsha, sha, ref in refs:
-                ref_status = b"ok"
-
                 # Run update hook for this ref
                 hook_error = self._on_update(ref, oldsha, sha)
                 if hook_error:
                     # Update hook declined this ref
-                    ref_status = hook_error
-                    yield (ref, ref_status)
+                    yield (ref, hook_error)
                     continue
 
                 try:
-                    if sha == zero_sha:
-                        if CAPABILITY_DELETE_REFS not in self.capabilities():
-                            raise GitProtocolError(
-                                "Attempted to delete refs without "
-                                "delete-refs capability."
-                            )
-                        try:
-                            self.repo.refs.remove_if_equals(ref, oldsha)
-                        except all_exceptions:
-                            ref_status = b"failed to delete"
-                    else:
-                        try:
-                            self.repo.refs.set_if_equals(ref, oldsha, sha)
-                        except all_exceptions:
-                            ref_status = b"failed to write"
+                    ref_status = check_command(oldsha, sha, ref) or apply_command(
+                        oldsha, sha, ref
+                    )
                 except KeyError:
                     ref_status = b"bad ref"
                 yield (ref, ref_status)
